@@ -31,6 +31,9 @@ PROPERTY = 'C14'
 # ---------------------------------------------------------------------------------- regions
 # Known-finding regions (switched on by known_findings.json entries; see HARNESS_GUIDE).  The exact
 # predicates are `_pre_k1`, `in_known_region` and the second half of c14-cr in `_pre_k3`.
+# All three were found by this harness on the pinned tree and reproduced on the real program.
+# c14-splitlines and c14-rollover-nonascii have since been repaired in /repo (commits f1544eb, b8a23d1);
+# their regions are inert unless a known_findings.json entry names them again.
 #
 #  c14-splitlines        a text that is (or may be, once cached in memory) held as a str is divided by
 #                        str.splitlines, i.e. also after VT FF FS GS RS NEL LS PS (and CR), while a file is
@@ -747,7 +750,7 @@ def obligations(tier: str) -> List[Ob]:
             obs.append(_k2_ob(spec, SEQ_UNFROZEN_THEN_FROZEN, 2, ALPHA_MAIN, 2400))
             obs.append(_k2_ob(spec, SEQ_FROZEN_FIRST, 3, ALPHA_PLAIN, 2400, tag=':plain'))
         # every order of three accesses: a concrete first access followed by two symbolic selectors
-        for spec in [('str', 'filter'), ('file', 'writer'), (('concat', 'str', 'str'),)]:
+        for spec in [('str', 'filter'), (('concat', 'str', 'str'),)]:
             for first in ACCESSES:
                 obs.append(_k2_ob(spec, first, 2, ALPHA_PLAIN if isinstance(spec[0], tuple) else ALPHA_MAIN, 3000,
                                   nsym=2))
